@@ -198,7 +198,7 @@ Lemma stamp_after_forwarded_gen : forall ops w pre stamp post,
 Proof.
   induction ops as [|o ops IH]; intros w pre stamp post H; cbn [pipe_run] in H.
   - destruct pre; discriminate.
-  - destruct o as [evs| |].
+  - destruct o as [evs| | |].
     + destruct (pipe_keyed w evs) as [w1 out] eqn:E.
       destruct (pipe_keyed_spec _ _ _ _ E) as [Hm [Hl Hn]].
       destruct (split_no_w _ _ _ _ _ Hn H) as [pre' [-> Hr]].
@@ -208,6 +208,7 @@ Proof.
       * inversion H; subst. cbn [sent_ts]. eapply IH. eassumption.
     + destruct pre as [|y pre]; cbn in H; [discriminate|].
       inversion H; subst. cbn [sent_ts]. eapply IH. eassumption.
+    + eapply IH. eassumption.
 Qed.
 
 Lemma stamp_after_forwarded_l : forall ops pre stamp post,
